@@ -364,6 +364,16 @@ V('v04.9', 'C04', 'F', 'C04.R1', 'template: solve_t calls evaluate with t', (FOR
 V('v04.s1', 'C04', 'S', None, 'guard rewritten equivalently',
   (MODELS, ST, 't_position < self.lags or t_position > len(self.span) - 1 - self.leads', 't_position + 1 <= self.lags or t_position >= len(self.span) - self.leads'))
 
+V('v07.30', 'C07', 'F', 'C07.R4', 'revert F42: the Fortran period loop stops on an error code only under errors=raise',
+  (FORTRAN, 'FORTRAN_TEMPLATE', """     else if(error_control == error_control_raise                                              &
+          &  .or. error_code < numerical_error_raise .or. error_code >= offset_predates_span) then""", """     else if(error_control == error_control_raise) then"""))
+V('v07.30b', 'C07', 'F', 'C07.R4', 'the period loop stops for offset errors but not for a period that cannot accommodate the lags',
+  (FORTRAN, 'FORTRAN_TEMPLATE', """          &  .or. error_code < numerical_error_raise .or. error_code >= offset_predates_span) then""", """          &  .or. error_code >= offset_predates_span) then"""))
+V('v07.30c', 'C07', 'F', 'C07.R4', 'the period loop stops on every error code (a skipped period ends the run)',
+  (FORTRAN, 'FORTRAN_TEMPLATE', """     else if(error_control == error_control_raise                                              &
+          &  .or. error_code < numerical_error_raise .or. error_code >= offset_predates_span) then""", """     else if(error_code /= 0) then"""))
+V('v07.s7', 'C07', 'S', None, 'the same stop condition written as a list of codes',
+  (FORTRAN, 'FORTRAN_TEMPLATE', """          &  .or. error_code < numerical_error_raise .or. error_code >= offset_predates_span) then""", """          &  .or. (error_code >= 11 .and. error_code <= 14) .or. error_code == 41 .or. error_code == 42) then"""))
 # ---------------------------------------------------------------------------
 # C08
 # ---------------------------------------------------------------------------
@@ -587,8 +597,10 @@ V('v03.s1', 'C03', 'S', None, 'affine rewrite of default end', (IFACE, 'SolverMi
 # C13
 # ---------------------------------------------------------------------------
 V('v13.1', 'C13', 'F', 'C13.R1', 'revert F6: exec in the syntax check',
-  (PARSER, 'parse_model', "                        compile(e, '<string>', 'exec')\n                    except SyntaxError:",
-   "                        exec(e)\n                    except NameError:\n                        pass\n                    except SyntaxError:"))
+  (PARSER, 'parse_model', "                        compile(e, '<string>', 'exec')\n",
+   "                        exec(e)\n"),
+  (PARSER, 'parse_model', "                    except SyntaxError:\n                        problem_statements.append((i, statement, e))",
+   "                    except NameError:\n                        pass\n                    except SyntaxError:\n                        problem_statements.append((i, statement, e))"))
 V('v13.1b', 'C13', 'F', 'C13.R1', 'build_model execs a different text',
   (PARSER, 'build_model', 'exec(model_definition_string, globals(), locals_)', "exec(model_definition_string + chr(10) + symbols[0].code, globals(), locals_)"))
 V('v13.2', 'C13', 'F', 'C13.R2', 'revert F7: unescaped template',
@@ -672,6 +684,12 @@ V('v13.12b', 'C13', 'F', 'C13.R8', 'a string that names a file is read from disk
 V('v13.s3', 'C13', 'S', None, 'path objects (never strings) are read from disk',
   (PARSER, '', "import ast\n", "import ast\nimport os\n"),
   (PARSER, 'parse_model', "    problem_statements: List[Tuple[int, str, str]] = []\n", "    if isinstance(model, os.PathLike):\n        with open(model) as f_:\n            model = f_.read()\n    problem_statements: List[Tuple[int, str, str]] = []\n"))
+V('v13.14', 'C13', 'F', 'C13.R5b', 'revert F40: the code is compiled on its own only, not as a method body',
+  (PARSER, 'parse_model', "                        with warnings.catch_warnings():\n                            warnings.simplefilter('ignore')  # Already recorded\n                            compile(\n                                'def _evaluate(self, t, *, errors, catch_first_error, iteration, **kwargs):\\n'\n                                '    pass\\n' + textwrap.indent(e, '    '),\n                                '<string>',\n                                'exec',\n                            )\n", ''))
+V('v13.14b', 'C13', 'F', 'C13.R5b', 'the wrapper function lacks the parameter `t` (so `global t` passes the check)',
+  (PARSER, 'parse_model', "'def _evaluate(self, t, *, errors, catch_first_error, iteration, **kwargs):\\n'", "'def _evaluate(self, *, errors, catch_first_error, iteration, **kwargs):\\n'"))
+V('v13.s5', 'C13', 'S', None, 'the wrapper function is spelt with other defaults and a different name',
+  (PARSER, 'parse_model', "'def _evaluate(self, t, *, errors, catch_first_error, iteration, **kwargs):\\n'", "'def body(self, t, errors=None, catch_first_error=True, iteration=None, **kwargs):\\n'"))
 V('v13.13', 'C13', 'F', 'C13.R3', "revert F26: no guard at the split, fence alternative matches lines inside a statement",
   (PARSER, 'parse_equation_terms', """    if '=' not in equation:
         raise ParserError(f"Failed to parse equation (no '=' found): '{equation}'")
@@ -745,6 +763,10 @@ V('v20.5', 'C20', 'F', 'C20.R2', 'undirected graph', (TOOLS, 'symbols_to_graph',
 V('v20.6', 'C20', 'F', 'C20.R3', 'code formatted over a different term list',
   (PARSER, 'parse_equation', 'code = template.format(*[t.code for t in terms])', 'code = template.format(*[t.code for t in parse_terms(equation)])'))
 
+V('v04.20', 'C04', 'F', 'C04.R2', 'revert F41: the Fortran wrapper copies by offset before the period is known to be feasible',
+  (FORTRAN, 'FortranEngine.solve_t', "        # Error if the period at `t` cannot accommodate the model's lags and\n        # leads: check here (as well as in the Fortran code, below) to reject\n        # the call before copying any values by `offset`\n        t_position = t\n        if t_position < 0:\n            t_position += len(self.span)\n\n        if t_position < self.lags or t_position > len(self.span) - 1 - self.leads:\n            raise IndexError(\n                f'Position `t` ({t}) cannot accommodate the lags ({self.lags}) '\n                f'and leads ({self.leads}) of the current model instance, '\n                f'which has {len(self.span)} period(s) in its span'\n            )\n\n", ''))
+V('v04.20b', 'C04', 'F', 'C04.R2', 'the wrapper checks the lags only (a period too close to the end is copied into, then rejected by the engine)',
+  (FORTRAN, 'FortranEngine.solve_t', "        if t_position < self.lags or t_position > len(self.span) - 1 - self.leads:\n            raise IndexError(\n                f'Position `t` ({t}) cannot accommodate the lags ({self.lags}) '\n                f'and leads ({self.leads}) of the current model instance, '\n                f'which has {len(self.span)} period(s) in its span'\n            )\n\n        # Optionally", "        if t_position < self.lags:\n            raise IndexError(\n                f'Position `t` ({t}) cannot accommodate the lags ({self.lags}) '\n                f'and leads ({self.leads}) of the current model instance, '\n                f'which has {len(self.span)} period(s) in its span'\n            )\n\n        # Optionally"))
 # ---------------------------------------------------------------------------
 # C05
 # ---------------------------------------------------------------------------
